@@ -28,6 +28,24 @@ class ModelError(Exception):
     pass
 
 
+class RaisingRepr:
+    """an event argument whose textual forms raise"""
+    def __repr__(self):
+        raise RuntimeError("this argument object cannot be printed")
+    __str__ = __repr__
+
+    def __format__(self, spec):
+        raise RuntimeError("this argument object cannot be printed")
+
+
+class LongRepr:
+    """an event argument with a very long, slow textual form"""
+    def __repr__(self):
+        time.sleep(0.002)
+        return "<" + "x" * 200000 + ">"
+    __str__ = __repr__
+
+
 def raise_fault(kind):
     if kind == "base":
         raise ModelAbort("injected fault (BaseException subclass)")
@@ -81,6 +99,12 @@ def run_case(case, name):
     from pydsol.core.utils import DSOLError
 
     ck = case["clock"]
+    # times in the case are integers in units of 2**-scale time units: quarters by default; "scale": 40 gives
+    # a fine exact scale (float / Duration-in-seconds clocks; magnitudes < 2**10, so every float addition is exact)
+    scale = case.get("scale", 2)
+    assert scale == 2 or ck in ("float", "dur"), (scale, ck)
+    DEN = 2 ** scale
+    UNIT = 2.0 ** -scale
 
     TINY_NEG = {"tinyneg1": -1e-15, "tinyneg2": -5e-324, "tinyneg3": -2.0 ** -60}
 
@@ -96,32 +120,40 @@ def run_case(case, name):
             t = now - max(1e-13, 4 * math.ulp(now))
             return Duration(t, "s") if ck in ("dur", "durmin") else t
         if ck == "int":
-            assert q % 4 == 0, q
-            return q // 4
+            # a fractional (dyadic) value can only be a run bound: the int simulator compares it exactly with int times
+            return q // 4 if q % 4 == 0 else q / 4.0
+        if ck == "fint":        # float simulator driven with Python ints wherever the value is whole (exact beyond 2**53)
+            return q // 4 if q % 4 == 0 else q / 4.0
         if ck == "float":
-            return q / 4.0
+            return q * UNIT
         if ck == "dur":
-            return Duration(q / 4.0, "s")
+            return Duration(q * UNIT, "s")
         if ck == "durmin":
             return Duration(float(q // 240), "min") if q % 240 == 0 else Duration(q / 4.0, "s")
         raise ValueError(ck)
 
     def to_q(t):
-        x = float(t) * 4
+        if isinstance(t, int) and not isinstance(t, bool):
+            return t * DEN
+        x = float(t) * DEN
         if x != x or math.isinf(x) or x != int(x):
             return ["nonint", repr(t)]
         return int(x)
 
     if ck == "int":
         sim = DEVSSimulatorInt(name)
-    elif ck == "float":
+    elif ck in ("float", "fint"):
         sim = DEVSSimulatorFloat(name)
     elif ck == "dur":
         sim = DEVSSimulatorDuration(name)
     else:
         sim = DEVSSimulatorDuration(name, "min")
-    sim.set_error_strategy({"log": ErrorStrategy.LOG_AND_CONTINUE, "warn": ErrorStrategy.WARN_AND_CONTINUE,
-                            "pause": ErrorStrategy.WARN_AND_PAUSE}[case["strategy"]])
+    STRAT = {"log": ErrorStrategy.LOG_AND_CONTINUE, "warn": ErrorStrategy.WARN_AND_CONTINUE,
+             "pause": ErrorStrategy.WARN_AND_PAUSE}
+    if case.get("loglevel") is None:
+        sim.set_error_strategy(STRAT[case["strategy"]])
+    else:       # the two-argument form: strategy plus an explicit log level
+        sim.set_error_strategy(STRAT[case["strategy"]], case["loglevel"])
 
     rec = {"trace": [], "outs": [], "ntfs": [], "obs": [], "snaps": [], "notes": [], "log": [], "canc": []}
     prog = case["prog"]
@@ -165,6 +197,12 @@ def run_case(case, name):
         for et, _ in NT:
             sim.add_listener(et, coll)
 
+    def bound_of(c):
+        """the bound of a run command; ["runupto", t, "int"] passes a Python int also on a float / Duration-free clock"""
+        if len(c) > 2 and c[2] == "int" and c[1] != "nan" and c[1] % DEN == 0 and ck in ("float", "fint"):
+            return c[1] // DEN
+        return to_time(c[1])
+
     def issue(c):
         """issue a command; returns 'ok' | 'refused' | 'exc:<Type>'"""
         try:
@@ -182,9 +220,9 @@ def run_case(case, name):
             elif k == "stop":
                 sim.stop()
             elif k == "runupto":
-                sim.run_up_to(to_time(c[1]))
+                sim.run_up_to(bound_of(c))
             elif k == "runuptoincl":
-                sim.run_up_to_including(to_time(c[1]))
+                sim.run_up_to_including(bound_of(c))
             elif k == "endrepl":
                 sim.end_replication()
             elif k == "cleanup":
@@ -211,7 +249,7 @@ def run_case(case, name):
                 build_stats(self)
             self.interp(0)
 
-        def handle(self, h, k):
+        def handle(self, h, k, tag=None):
             rec["trace"].append([k, to_q(sim.simulator_time)])
             rec["log"].append(["exec", k, to_q(sim.simulator_time), h])
             self.interp(h)
@@ -222,6 +260,9 @@ def run_case(case, name):
                 if kind == "sched":
                     mode, prio, hh = a[1], a[2], a[3]
                     kw = {"h": hh, "k": len(self.created)}
+                    br = case.get("badrepr")
+                    if br and (len(self.created) + hh) % 2 == 0:     # every other event carries such an argument
+                        kw["tag"] = RaisingRepr() if br == "raise" else LongRepr()
                     size0 = sim.eventlist().size()
                     entry = ["sched", mode, to_q(sim.simulator_time), None, size0, None, None]
                     rec["log"].append(entry)
@@ -251,8 +292,10 @@ def run_case(case, name):
                 elif kind == "fail":
                     raise_fault(a[1] if len(a) > 1 else "runtime")
                 elif kind == "setstrat":     # the model changes the error strategy while the run is going on
-                    sim.set_error_strategy({"log": ErrorStrategy.LOG_AND_CONTINUE, "warn": ErrorStrategy.WARN_AND_CONTINUE,
-                                            "pause": ErrorStrategy.WARN_AND_PAUSE}[a[1]])
+                    if len(a) > 2 and a[2] is not None:
+                        sim.set_error_strategy(STRAT[a[1]], a[2])
+                    else:
+                        sim.set_error_strategy(STRAT[a[1]])
                     rec["log"].append(["setstrat", a[1], to_q(sim.simulator_time)])
                 elif kind == "cmd":
                     r = issue(a[1])
